@@ -185,17 +185,44 @@ func preprocessHTMLEntities(content string) string {
 	// Replace the most common HTML entities with Unicode characters
 	// NOTE: &amp; entities are intentionally preserved - the XML parser will convert
 	// them to raw ampersands safely after parsing, maintaining XML validity.
-	result = strings.ReplaceAll(result, "&copy;", "©")
-	result = strings.ReplaceAll(result, "&reg;", "®")
-	result = strings.ReplaceAll(result, "&trade;", "™")
-	result = strings.ReplaceAll(result, "&nbsp;", "\u00A0") // Unicode non-breaking space
-	result = strings.ReplaceAll(result, "&#xA0;", "\u00A0") // Numeric character reference for non-breaking space
-	result = strings.ReplaceAll(result, "&#160;", "\u00A0") // Decimal numeric reference for non-breaking space
-	result = strings.ReplaceAll(result, "&ndash;", "–")
-	result = strings.ReplaceAll(result, "&mdash;", "—")
-	result = strings.ReplaceAll(result, "&hellip;", "…")
+	result = replaceInMarkup(result, "&copy;", "©")
+	result = replaceInMarkup(result, "&reg;", "®")
+	result = replaceInMarkup(result, "&trade;", "™")
+	result = replaceInMarkup(result, "&nbsp;", "\u00A0") // Unicode non-breaking space
+	result = replaceInMarkup(result, "&#xA0;", "\u00A0") // Numeric character reference for non-breaking space
+	result = replaceInMarkup(result, "&#160;", "\u00A0") // Decimal numeric reference for non-breaking space
+	result = replaceInMarkup(result, "&ndash;", "–")
+	result = replaceInMarkup(result, "&mdash;", "—")
+	result = replaceInMarkup(result, "&hellip;", "…")
 
 	return result
+}
+
+// replaceInMarkup is strings.ReplaceAll for everything except comments and CDATA sections,
+// whose text is not markup and is left exactly as written.
+func replaceInMarkup(content, old, new string) string {
+	if !strings.Contains(content, old) {
+		return content
+	}
+	var out strings.Builder
+	out.Grow(len(content))
+	for i := 0; i < len(content); {
+		if content[i] == '<' {
+			if end := nonMarkupEnd(content, i); end > i {
+				out.WriteString(content[i:end])
+				i = end
+				continue
+			}
+		}
+		if strings.HasPrefix(content[i:], old) {
+			out.WriteString(new)
+			i += len(old)
+			continue
+		}
+		out.WriteByte(content[i])
+		i++
+	}
+	return out.String()
 }
 
 // escapeAttributeAmpersands escapes raw ampersands in XML attribute values
